@@ -840,7 +840,7 @@ def stepReg (st : DSt) (r : Report) (ln : Nat) (cmd obs : List String) : Option 
     let r := cmpVec r st ln "normalize" q'.psi obs
     let impl := (parseCVec obs).map (·.1) |>.getD #[]
     some ({ st with q := some q', implPsi := impl }, r)
-  | ["sample", count, _] => do
+  | ["sample", count, _] | ["samplex", count, _] => do
     let count ← tokNat count
     let q ← st.q
     let (normals, rest) ← parseFVec obs
